@@ -93,6 +93,7 @@ func runCRLStress() int {
 		}
 		start := make(chan struct{})
 		var wg sync.WaitGroup
+		urlOf := urlVariants[ep%len(urlVariants)]
 		for _, w := range []string{"w1", "w2", "w3"} {
 			wg.Add(1)
 			w := w
